@@ -9,10 +9,15 @@ import EqlModel.Build
 namespace Eql
 variable {V : Type}
 
+/-- `HashedIterable.__iter__`: an element whose id is already memoised (`seen`) is skipped. -/
+def dedupFrom [BEq V] (seen : List V) : List V → List V
+  | [] => []
+  | a :: as => if seen.contains a then dedupFrom seen as else a :: dedupFrom (a :: seen) as
+
 /-- `let(T, domain)`: the members of the supplied collection that are instances of `T`
     (predicate.py filters with `isinstance`), each object once (`HashedIterable`). -/
 def mkDom [BEq V] (W : World V) (cls : String) (raw : List V) : List V :=
-  (raw.filter (W.isInst cls)).eraseDups
+  dedupFrom [] (raw.filter (W.isInst cls))
 
 /-- All total bindings of the listed variables, first variable outermost. -/
 def allBnds (D : VarId → List V) : List VarId → List (Bnd V)
